@@ -296,7 +296,7 @@ theorem cmd_one (na : Bool) (st : St SimSt) (c : Str) (b : Behav) (q : List Beha
     o.2.warns = st.warns ++ warnsOf c b.out ∧
     (validOut b.out = true → o.1 = .ok () ∧ Ready o.2 ∧ o.2.dev.queue = q) ∧
     (validOut b.out = false → ∃ R, o.1 = .abort (.unexpectedOutput c R) ∧ neLines R = neLines b.out) ∧
-    (o.2.dev.parts = [] ∧ o.2.reloadActive = true) := by
+    (o.2.dev.parts = [] ∧ o.2.reloadActive = true ∧ o.2.dev.occ = st.dev.occ) := by
   intro o
   have hsplit : splitOnNL c = [c] := splitOnNL_no_nl c hc.clean.noNL
   have hstep : (simDevice [] na).step st.dev c = ({ st.dev with queue := q }, replyFor c b) := by
@@ -324,7 +324,7 @@ theorem cmd_one (na : Bool) (st : St SimSt) (c : Str) (b : Behav) (q : List Beha
     · simp [st1]
     · intro h; cases h
     · intro _; exact ⟨R, rfl, hR⟩
-    · refine ⟨?_, ?_⟩ <;> first | exact hr.parts | exact hr.active | rfl | (simp [st1, pureM] <;> first | exact hr.parts | exact hr.active) | (simp [st2, st1, pureM] <;> first | exact hr.parts | exact hr.active)
+    · refine ⟨?_, ?_, ?_⟩ <;> first | exact hr.parts | exact hr.active | rfl | (simp [st1, pureM] <;> first | exact hr.parts | exact hr.active) | (simp [st2, st1, pureM] <;> first | exact hr.parts | exact hr.active)
   | true =>
     have hres : (check c st1).1 = .ok (needOf b) := by rw [hck, checkRes_valid _ _ _ _ hv]
     rw [bindM_snd_of_ok _ _ _ _ hres, hck] at ho
@@ -338,7 +338,7 @@ theorem cmd_one (na : Bool) (st : St SimSt) (c : Str) (b : Behav) (q : List Beha
       · simp [st1, pureM]
       · intro _; exact ⟨rfl, ⟨rfl, hr.active, hr.parts⟩, rfl⟩
       · intro h; cases h
-      · refine ⟨?_, ?_⟩ <;> first | exact hr.parts | exact hr.active | rfl | (simp [st1, pureM] <;> first | exact hr.parts | exact hr.active) | (simp [st2, st1, pureM] <;> first | exact hr.parts | exact hr.active)
+      · refine ⟨?_, ?_, ?_⟩ <;> first | exact hr.parts | exact hr.active | rfl | (simp [st1, pureM] <;> first | exact hr.parts | exact hr.active) | (simp [st2, st1, pureM] <;> first | exact hr.parts | exact hr.active)
     | true =>
       rw [hn] at ho; simp only [if_true] at ho
       rw [extendReload_sim na _ (by simp) (by simp [st1]; exact hr.parts)] at ho
@@ -348,7 +348,7 @@ theorem cmd_one (na : Bool) (st : St SimSt) (c : Str) (b : Behav) (q : List Beha
       · simp [st1]
       · intro _; exact ⟨rfl, ⟨rfl, rfl, hr.parts⟩, rfl⟩
       · intro h; cases h
-      · refine ⟨?_, ?_⟩ <;> first | exact hr.parts | exact hr.active | rfl | (simp [st1, pureM] <;> first | exact hr.parts | exact hr.active) | (simp [st2, st1, pureM] <;> first | exact hr.parts | exact hr.active)
+      · refine ⟨?_, ?_, ?_⟩ <;> first | exact hr.parts | exact hr.active | rfl | (simp [st1, pureM] <;> first | exact hr.parts | exact hr.active) | (simp [st2, st1, pureM] <;> first | exact hr.parts | exact hr.active)
 
 
 /-- one joined two-command line; the first half carries no probing placement -/
@@ -363,7 +363,7 @@ theorem cmd_two (na : Bool) (st : St SimSt) (c1 c2 : Str) (b1 b2 : Behav) (q : L
     (validOut b1.out = false → ∃ R, o.1 = .abort (.unexpectedOutput c1 R) ∧ neLines R = neLines b1.out) ∧
     (validOut b1.out = true → validOut b2.out = false →
       ∃ R, o.1 = .abort (.unexpectedOutput c2 R) ∧ neLines R = neLines b2.out) ∧
-    (o.2.dev.parts = [] ∧ o.2.reloadActive = true) := by
+    (o.2.dev.parts = [] ∧ o.2.reloadActive = true ∧ o.2.dev.occ = st.dev.occ) := by
   intro o
   have hsplit : splitOnNL (c1 ++ '\n' :: c2) = [c1, c2] := by
     rw [splitOnNL_append_nl, splitOnNL_no_nl c1 hc1.clean.noNL, splitOnNL_no_nl c2 hc2.clean.noNL]; rfl
@@ -408,7 +408,7 @@ theorem cmd_two (na : Bool) (st : St SimSt) (c1 c2 : Str) (b1 b2 : Behav) (q : L
     · intro h; cases h
     · intro _; exact ⟨R1, rfl, hR1⟩
     · intro h; cases h
-    · refine ⟨?_, ?_⟩ <;> first | exact hr.parts | exact hr.active | rfl | (simp [st1, pureM] <;> first | exact hr.parts | exact hr.active) | (simp [st2, st1, pureM] <;> first | exact hr.parts | exact hr.active)
+    · refine ⟨?_, ?_, ?_⟩ <;> first | exact hr.parts | exact hr.active | rfl | (simp [st1, pureM] <;> first | exact hr.parts | exact hr.active) | (simp [st2, st1, pureM] <;> first | exact hr.parts | exact hr.active)
   | true =>
     have hres : (check c1 st1).1 = .ok (needOf b1) := by rw [hck1, checkRes_valid _ _ _ _ hv1]
     rw [bindM_snd_of_ok _ _ _ _ hres, hck1] at ho
@@ -427,7 +427,7 @@ theorem cmd_two (na : Bool) (st : St SimSt) (c1 c2 : Str) (b1 b2 : Behav) (q : L
       · intro _ h; cases h
       · intro h; cases h
       · intro _ _; exact ⟨R2, rfl, hR2⟩
-      · refine ⟨?_, ?_⟩ <;> first | exact hr.parts | exact hr.active | rfl | (simp [st1, pureM] <;> first | exact hr.parts | exact hr.active) | (simp [st2, st1, pureM] <;> first | exact hr.parts | exact hr.active)
+      · refine ⟨?_, ?_, ?_⟩ <;> first | exact hr.parts | exact hr.active | rfl | (simp [st1, pureM] <;> first | exact hr.parts | exact hr.active) | (simp [st2, st1, pureM] <;> first | exact hr.parts | exact hr.active)
     | true =>
       have hres2 : (check c2 st2).1 = .ok (needOf b2) := by rw [hck2, checkRes_valid _ _ _ _ hv2]
       have hin : bindM (check c2) (fun n2 => pureM (needOf b1 || n2)) st2 =
@@ -445,7 +445,7 @@ theorem cmd_two (na : Bool) (st : St SimSt) (c1 c2 : Str) (b1 b2 : Behav) (q : L
         · intro _ _; exact ⟨rfl, ⟨rfl, hr.active, hr.parts⟩, rfl⟩
         · intro h; cases h
         · intro _ h; cases h
-        · refine ⟨?_, ?_⟩ <;> first | exact hr.parts | exact hr.active | rfl | (simp [st1, pureM] <;> first | exact hr.parts | exact hr.active) | (simp [st2, st1, pureM] <;> first | exact hr.parts | exact hr.active)
+        · refine ⟨?_, ?_, ?_⟩ <;> first | exact hr.parts | exact hr.active | rfl | (simp [st1, pureM] <;> first | exact hr.parts | exact hr.active) | (simp [st2, st1, pureM] <;> first | exact hr.parts | exact hr.active)
       | true =>
         rw [hn] at ho; simp only [if_true] at ho
         rw [extendReload_sim na _ (by simp) (by simp [st2, st1]; exact hr.parts)] at ho
@@ -456,6 +456,6 @@ theorem cmd_two (na : Bool) (st : St SimSt) (c1 c2 : Str) (b1 b2 : Behav) (q : L
         · intro _ _; exact ⟨rfl, ⟨rfl, rfl, hr.parts⟩, rfl⟩
         · intro h; cases h
         · intro _ h; cases h
-        · refine ⟨?_, ?_⟩ <;> first | exact hr.parts | exact hr.active | rfl | (simp [st1, pureM] <;> first | exact hr.parts | exact hr.active) | (simp [st2, st1, pureM] <;> first | exact hr.parts | exact hr.active)
+        · refine ⟨?_, ?_, ?_⟩ <;> first | exact hr.parts | exact hr.active | rfl | (simp [st1, pureM] <;> first | exact hr.parts | exact hr.active) | (simp [st2, st1, pureM] <;> first | exact hr.parts | exact hr.active)
 
 end NA.Ios
